@@ -803,13 +803,15 @@ unsafe impl Array for UnionArray {
         };
 
         if fields.len() <= 1 {
-            return self.fields.iter().find_map(|field_opt| {
+            // `self.fields` is indexed by type id, which need not be 0 for a single field
+            return self.fields.iter().enumerate().find_map(|(type_id, field_opt)| {
                 field_opt
                     .as_ref()
                     .and_then(|field| field.logical_nulls())
                     .map(|logical_nulls| {
                         if self.is_dense() {
-                            self.gather_nulls(vec![(0, logical_nulls)]).into()
+                            self.gather_nulls(vec![(type_id as i8, logical_nulls)])
+                                .into()
                         } else {
                             logical_nulls
                         }
